@@ -42,19 +42,10 @@ var wrongShapes = []string{"\n", "{", "}", "[", "[]", "5", "-1", "\"x\"", "null"
 	"\x00", "\x00\x00\x00\x00", "\xff\xfe", "{\"stamp\":\"\x00\"}"}
 
 func runFileFaults(r *rng, tier string, dir0 string, mk func(int) string) {
-	// the clean, fully built state: every file under .dawn/build
-	snap := map[string][]byte{}
-	root := filepath.Join(dir0, ".dawn", "build")
-	filepath.Walk(root, func(p string, info os.FileInfo, err error) error {
-		if err == nil && !info.IsDir() {
-			rel, _ := filepath.Rel(dir0, p)
-			if !strings.HasPrefix(rel, filepath.Join(".dawn", "build", "temp")) {
-				b, _ := os.ReadFile(p)
-				snap[rel] = b
-			}
-		}
-		return nil
-	})
+	if replayFault != nil && replayFault["stream"] != "recfile" {
+		return
+	}
+	snap := snapshotBuild(dir0)
 	var files []string
 	for f := range snap {
 		files = append(files, f)
@@ -122,16 +113,14 @@ func runFileFaults(r *rng, tier string, dir0 string, mk func(int) string) {
 		go func(dir string) {
 			defer wg.Done()
 			for ff := range ch {
-				// back to the clean built state
-				os.Chmod(filepath.Join(dir, ff.file), 0o644)
-				os.RemoveAll(filepath.Join(dir, ".dawn"))
-				for rel, b := range snap {
-					os.MkdirAll(filepath.Dir(filepath.Join(dir, rel)), 0o755)
-					os.WriteFile(filepath.Join(dir, rel), b, 0o644)
+				if tooManyFatal() && replayFault == nil {
+					mu.Lock()
+					stats["recfile.skipped-after-fatal-cases"]++
+					mu.Unlock()
+					continue
 				}
-				os.MkdirAll(filepath.Join(dir, ".dawn", "build", "temp"), 0o755)
-				os.WriteFile(filepath.Join(dir, "out.txt"), []byte("source\n"), 0o644)
-				os.Remove(filepath.Join(dir, "log.txt"))
+				os.Chmod(filepath.Join(dir, ff.file), 0o644)
+				restoreBuild(dir, snap)
 				path := filepath.Join(dir, ff.file)
 				switch ff.kind {
 				case "content":
@@ -183,6 +172,135 @@ func runFileFaults(r *rng, tier string, dir0 string, mk func(int) string) {
 	}
 	for _, ff := range faults {
 		ch <- ff
+	}
+	close(ch)
+	wg.Wait()
+}
+
+// the clean, fully built state of a project: every file under .dawn/build (but temp)
+func snapshotBuild(dir0 string) map[string][]byte {
+	snap := map[string][]byte{}
+	root := filepath.Join(dir0, ".dawn", "build")
+	filepath.Walk(root, func(p string, info os.FileInfo, err error) error {
+		if err == nil && !info.IsDir() {
+			rel, _ := filepath.Rel(dir0, p)
+			if !strings.HasPrefix(rel, filepath.Join(".dawn", "build", "temp")) {
+				b, _ := os.ReadFile(p)
+				snap[rel] = b
+			}
+		}
+		return nil
+	})
+	return snap
+}
+
+// restoreBuild puts a worker's copy of the project back into that state
+func restoreBuild(dir string, snap map[string][]byte) {
+	os.RemoveAll(filepath.Join(dir, ".dawn"))
+	for rel, b := range snap {
+		os.MkdirAll(filepath.Dir(filepath.Join(dir, rel)), 0o755)
+		os.WriteFile(filepath.Join(dir, rel), b, 0o644)
+	}
+	os.MkdirAll(filepath.Join(dir, ".dawn", "build", "temp"), 0o755)
+	os.WriteFile(filepath.Join(dir, "out.txt"), []byte("source\n"), 0o644)
+	os.Remove(filepath.Join(dir, "log.txt"))
+}
+
+// Several packages, and a Project that is used again: the function record of EACH package's target corrupted in turn,
+// then (i) a fresh Load + Run, (ii) a Project loaded from the clean state that sees the record go bad: Reload, Reload,
+// Targets, Run on the same Project. Every call must return (the child's watchdog reports a call that blocks).
+func runMultiPackage(tier string, dir0 string, mk func(int) string, snap map[string][]byte) {
+	type mcase struct {
+		file    string
+		content []byte
+		name    string
+		reuse   bool
+	}
+	var cases []mcase
+	if replayFault != nil {
+		c, _ := base64.StdEncoding.DecodeString(fmt.Sprint(replayFault["content"]))
+		cases = append(cases, mcase{fmt.Sprint(replayFault["file"]), c, "replay", replayFault["reuse"] == true})
+	} else {
+		var files []string
+		for f := range snap {
+			if strings.Contains(f, "targets") {
+				files = append(files, f)
+			}
+		}
+		sort.Strings(files)
+		for _, f := range files {
+			var rec map[string]any
+			if json.Unmarshal(snap[f], &rec) != nil {
+				continue
+			}
+			with := func(stamp string) []byte {
+				r2 := map[string]any{}
+				for k, v := range rec {
+					r2[k] = v
+				}
+				r2["stamp"] = stamp
+				b, _ := json.Marshal(r2)
+				return b
+			}
+			st, _ := rec["stamp"].(string)
+			raw, _ := base64.StdEncoding.DecodeString(st)
+			for _, c := range []mcase{
+				{f, with("!!! not base64"), "stamp-not-base64", false},
+				{f, with(base64.StdEncoding.EncodeToString(raw[:len(raw)/2])), "stamp-truncated", false},
+				{f, with(base64.StdEncoding.EncodeToString([]byte{'K', 5, '.'})), "stamp-foreign-value", false},
+				{f, []byte{}, "file-empty", false},
+				{f, []byte("{"), "file-open-brace", false},
+			} {
+				cases = append(cases, c)
+				c.reuse = true
+				cases = append(cases, c)
+			}
+		}
+	}
+	var mu sync.Mutex
+	var wg sync.WaitGroup
+	ch := make(chan mcase)
+	for wk := 0; wk < 8; wk++ {
+		dir := mk(200 + wk)
+		wg.Add(1)
+		go func(dir string) {
+			defer wg.Done()
+			for c := range ch {
+				if tooManyFatal() && replayFault == nil {
+					mu.Lock()
+					stats["recmulti.skipped-after-fatal-cases"]++
+					mu.Unlock()
+					continue
+				}
+				restoreBuild(dir, snap)
+				if c.reuse {
+					os.WriteFile(filepath.Join(dir, c.file+".fault"), c.content, 0o644)
+				} else {
+					os.WriteFile(filepath.Join(dir, c.file), c.content, 0o644)
+				}
+				res, detail := runChildPR(dir, false, c.reuse)
+				executed := logLines(dir)
+				mu.Lock()
+				mode := "fresh"
+				if c.reuse {
+					mode = "reused-project"
+				}
+				stats["recmulti.cases"]++
+				stats["recmulti."+mode+"."+res]++
+				input := map[string]any{"stream": "recmulti", "file": c.file, "name": c.name, "reuse": c.reuse,
+					"content": base64.StdEncoding.EncodeToString(c.content)}
+				switch {
+				case res == "crash" || res == "hang" || res == "spawn-failed":
+					violation("record-"+res, input, "a corrupted record ("+c.name+" on "+c.file+", "+mode+"): "+detail)
+				case res == "ok" && executed == 0 && detail == "":
+					violation("record-silently-up-to-date", input, "the record was changed ("+c.name+") and nothing was re-executed or reported")
+				}
+				mu.Unlock()
+			}
+		}(dir)
+	}
+	for _, c := range cases {
+		ch <- c
 	}
 	close(ch)
 	wg.Wait()
